@@ -585,6 +585,34 @@ func urlTarget(url, srcNS string) (ips []string, port int, backendID string, ok 
 // match; every path of a case has the same type, so precedence between types never
 // matters).  Written from the documentation of path types, not from the maps.
 func routes(in input, host, url string) string {
+	if strings.HasPrefix(host, "*.") {
+		// Wildcard hostnames (and alias-regex) match with the regex path type whatever the
+		// type of the path (docs, keys.md, "Path type"): case sensitive, anchored at the
+		// start only.  Which of two overlapping rules of such a host answers is not
+		// documented: a URL more than one declared path matches is left unjudged.
+		hit, n := "", 0
+		for _, g := range in.Ingresses {
+			for _, r := range g.Rules {
+				if r.Host != host {
+					continue
+				}
+				m := false
+				if in.PathType == "Exact" {
+					m = url == r.Path
+				} else {
+					m = strings.HasPrefix(url, r.Path)
+				}
+				if m {
+					hit = r.Path
+					n++
+				}
+			}
+		}
+		if n == 1 {
+			return hit
+		}
+		return ""
+	}
 	best := ""
 	for _, g := range in.Ingresses {
 		for _, r := range g.Rules {
@@ -598,6 +626,7 @@ func routes(in input, host, url string) string {
 			case "Prefix":
 				m = url == r.Path || strings.HasPrefix(url, strings.TrimSuffix(r.Path, "/")+"/")
 			default:
+				// begin: documented case insensitive on plain hosts
 				m = strings.HasPrefix(strings.ToLower(url), strings.ToLower(r.Path))
 			}
 			if m && len(r.Path) > len(best) {
@@ -965,7 +994,7 @@ func main() {
 		}
 		inputs = append(inputs, corpus()...)
 		inputs = append(inputs, updaterCorpus()...)
-		np, nu := o.Count(1200, 12000), o.Count(800, 8000)
+		np, nu := o.Count(1000, 12000), o.Count(600, 8000)
 		if o.Search {
 			np, nu = 12000, 6000
 		}
@@ -1031,6 +1060,8 @@ func main() {
 		}
 	}
 	cw.Flush()
-	_ = os.RemoveAll(scratch)
+	if os.Getenv("VERIF_KEEP") == "" {
+		_ = os.RemoveAll(scratch)
+	}
 	res.Write(o)
 }
